@@ -50,6 +50,9 @@ func runC15(c *core.Ctx) {
 	h.commaOkDiscipline("C15.8 comma-ok")
 	c.Clause("C15.9 assertions that guard persisted state cannot be reached with their condition false: every storage.setTerm(t) lies behind t > term")
 	h.setTermPrecondition("C15.9 setTerm-precondition")
+	c.Clause("C15.10 segments are closed only when no apply request can still read them; entries are compacted away only once applied")
+	h.installCommitsWhatItKeeps("C15.10 install-commit")
+	h.whoMayCompact("C15.10b who-may-compact")
 }
 
 type guardSpec struct{ field, mu, reason string }
